@@ -37,27 +37,17 @@ package processorretry
 //@   ensures[frame]        forall(q, string, q != APIStream.GetSequenceID() ==> (hasR(p, APIStream, q) <==> old(hasR(p, APIStream, q))) && valR(p, APIStream, q) == old(valR(p, APIStream, q)))
 
 // ---------------------------------------------------------------- construction: the bound is the configured number of attempts
-//@ ghost func rpInt(m map[string]stream_types.ProcessorParam, name string) int
-//@ ghost func rpSeconds(m map[string]stream_types.ProcessorParam, name string) int64
-//@ ghost func rpFloat(m map[string]stream_types.ProcessorParam, name string) real
-//@ extern utils.ExtractIntParam
-//@   params metaData, paramName, out
-//@   modifies *out
-//@   ensures result == nil ==> *out == rpInt(metaData, paramName)
-//@ extern utils.ExtractDurationInSecParam
-//@   params metaData, paramName, out
-//@   modifies *out
-//@   ensures result == nil ==> *out == rpSeconds(metaData, paramName) * 1000000000
-//@ extern utils.ExtractFloat64Param
-//@   params metaData, paramName, out
-//@   modifies *out
-//@   ensures result == nil ==> *out == rpFloat(metaData, paramName)
+// (the extraction helpers are proved in processors/utils: the value stored under the parameter's own name)
+//@ ghost func rpInt(m map[string]stream_types.ProcessorParam, name string) int = m[name].Value.GetInt()
+//@ ghost func rpSeconds(m map[string]stream_types.ProcessorParam, name string) int64 = m[name].Value.GetInt()
+//@ ghost func rpFloat(m map[string]stream_types.ProcessorParam, name string) float64 = m[name].Value.GetFloat64()
 //@ pure environment.GetLuaRetryRequestTimeout
 //@ pure retryProcessor).getCooldownDuration
 
 //@ func (*retryProcessor).init
 //@   prop C17
 //@   requires p != nil && p.metaData != nil
+//@   requires[parameters-carry-values] pvOK(p.metaData.Parameters)
 //@   modifies p.logger, p.attempts, p.cooldown, p.cooldownMultiplier, now
 //@   loop 1 modifies nothing
 //@   ensures[bound-is-the-configured-attempts] result == nil ==> p.attempts == rpInt(p.metaData.Parameters, "attempts")
